@@ -167,6 +167,13 @@ def _lig_case(draw):
     spec["opts"] = {"box": [edge, edge, edge], "ligands": [[host_spec, lig_spec]],
                     "step_fudge": draw(st.sampled_from([0.8, 1.0]))}
     spec["lig"] = {"host": host, "host_resid": ridx + 1, "lig": lig, "lig_resids": list(range(1, nlres + 1)) if whole else [1]}
+    others = [i for i, n in enumerate(names) if n == "SOL" and i != lig]
+    if others and draw(st.booleans()):
+        # a second -lig option for the same host molecule: another ligand molecule at this or another residue
+        lig2 = draw(st.sampled_from(others))
+        ridx2 = draw(st.integers(0, len(hmt["residues"]) - 1))
+        spec["opts"]["ligands"].append([f"{names[host]}#{host}-#{ridx2 + 1}", f"SOL#{lig2}-W#1"])
+        spec["lig2"] = {"host": host, "host_resid": ridx2 + 1, "lig": lig2, "lig_resids": [1]}
     spec["kind"] = "lig"
     return spec
 
@@ -496,6 +503,17 @@ def check_lig(spec, ctx, res, topo, names):
         if len(meta.nodes) != want:
             raise Violation("ligand:left_in_host", f"molecule {mi} ({names[mi]}) has {len(meta.nodes)} residues, expected {want}")
     box = np.array(res.engine.boxsize, dtype=float)
+    if spec.get("lig2"):
+        ctx.label("two_ligand_options_one_host")
+        _check_one_ligand(spec, spec["lig2"], topo, box)
+    _check_one_ligand(spec, lig, topo, box)
+    if len(lig.get("lig_resids", [1])) > 1:
+        ctx.label("several_ligand_residues")
+    ctx.label("ligand")
+    ctx.nontrivial = True
+
+
+def _check_one_ligand(spec, lig, topo, box):
     host = topo.molecules[lig["host"]]
     hnode = [n for n in host.nodes if host.nodes[n]["resid"] == lig["host_resid"]][0]
     lmol = topo.molecules[lig["lig"]]
@@ -514,10 +532,6 @@ def check_lig(spec, ctx, res, topo, names):
         atoms = [lmol.molecule.nodes[a]["position"] for a in lmol.nodes[lnode]["graph"].nodes]
         if np.max(np.abs(np.mean(atoms, axis=0) - np.array(lmol.nodes[lnode]["position"]))) > 1e-6:
             raise Violation("ligand:atoms_not_at_ligand_position", "backmapped ligand atoms are not centred on the ligated position")
-    if len(lig.get("lig_resids", [1])) > 1:
-        ctx.label("several_ligand_residues")
-    ctx.label("ligand")
-    ctx.nontrivial = True
 
 
 def check_split(spec, ctx, res, topo, names):
